@@ -488,6 +488,24 @@ def record_length(repo: Repo, rep, P: str):
                           (op is ast.LtE and d == -base) or (op is ast.Lt and d == -(base + 1))
                 length_var = v
                 verdict = (cond_ok and newv == alg.Poly.sym("byte") + 1, norm(n))
+    closed_form = False
+    if length_var is None:
+        # L = max((option.byte + 1 for option in self.options.values()), default=0)
+        for n in walk_no_nested(wfn):
+            if isinstance(n, ast.Assign) and len(n.targets) == 1 and isinstance(n.targets[0], ast.Name) and isinstance(n.value, ast.Call) \
+                    and norm(n.value.func) == "max" and len(n.value.args) == 1 and isinstance(n.value.args[0], (ast.GeneratorExp, ast.ListComp)) \
+                    and len(n.value.args[0].generators) == 1 and not n.value.args[0].generators[0].ifs \
+                    and isinstance(n.value.args[0].generators[0].target, ast.Name) \
+                    and norm(n.value.args[0].generators[0].iter) in ("self.options.values()",):
+                gv = n.value.args[0].generators[0].target.id
+                dflt = next((k.value for k in n.value.keywords if k.arg == "default"), None)
+                length_var = n.targets[0].id
+                try:
+                    p = alg.to_poly(n.value.args[0].elt, lambda e: alg.Poly.sym("byte") if norm(e) == f"{gv}.byte" else None)
+                    verdict = (p == alg.Poly.sym("byte") + 1 and isinstance(dflt, ast.Constant) and dflt.value == 0, norm(n))
+                    closed_form = True
+                except alg.NotAlgebraic:
+                    verdict = (None, norm(n))
     if length_var is None or verdict is None or verdict[0] is None:
         rep.inconclusive(f"{P}.R3", wcon, verdict[1] if verdict else "", "computation of the record length not recognised", f"{rel}:{wfn.lineno}")
     elif not verdict[0]:
@@ -495,7 +513,7 @@ def record_length(repo: Repo, rep, P: str):
                       "the options record must be max(option.byte) + 1 bytes long (highest option byte included)", f"{rel}:{wfn.lineno}")
     else:
         init = [n for n in wfn.body if isinstance(n, ast.Assign) and norm(n.targets[0]) == length_var]
-        ok0 = bool(init) and isinstance(init[0].value, ast.Constant) and init[0].value.value == 0
+        ok0 = closed_form or (bool(init) and isinstance(init[0].value, ast.Constant) and init[0].value.value == 0)
         payload = packed.find_yield(wfn, b"CHDT")
         ptxt = norm(payload) if payload is not None else ""
         uses = payload is not None and any(isinstance(x, ast.Subscript) and isinstance(x.slice, ast.Slice) and x.slice.lower is None
